@@ -8,9 +8,14 @@ Streams
              snapshot, serialised and parsed back, and compared with the model's message;
   value      attribute values through the real BoundedAttributes and the real convert_value;
   auth       generated auth configurations (no provider / "" / BasicAuthProvider with, without, partial credentials /
-             a custom provider class) x sequences of LongPoll.poll and PushService._push_task on a fake channel that
+             a custom provider class / a provider name that cannot be loaded: nothing may be sent) x sequences of LongPoll.poll and PushService._push_task on a fake channel that
              records request + metadata keyword, and (1 in 5) through the real GRPCService channel to an in-process
              loopback gRPC server that records what really arrives;
+             (the tracepoint is configured as the service does it - a protobuf TracePointConfig through the real
+             convert_response - as a line tracepoint, a METHOD tracepoint (FunctionLocation, line -1) or a capture-stage
+             one; the collected snapshot also goes through the real PushService._push_task on a channel that serialises
+             and parses back: the message that ARRIVES is judged)
+  tpline     the line number a line / method tracepoint reports and whether an (empty) snapshot of it is sent;
   wirebytes  "survives serialisation", beyond what an encoder writes: the real bytes of a converted snapshot with a
              structured change (unknown fields of every wire type inserted, records reordered, a singular scalar
              repeated - last wins, a padded varint, truncation at a random byte, invalid UTF-8 appended), parsed by the
@@ -43,7 +48,7 @@ TIME = {'quick': 75, 'thorough': 800}
 RULE = ('snapshot: 1-7 generated locals (ints incl. > 64 bit, floats incl. nan/inf, bools, None, str incl. non-BMP and '
         'longer than the string limit, bytes, nested list/tuple/set/dict, objects with public/_protected/__private '
         'attributes, exceptions, shared and self-referential values, a `self`), 1-2 real frames of generated code, '
-        'frame_type single/all/none, 0-3 watches (valid, failing, large), optional log message with fields, 0-4 '
+        'tracepoint kind line / METHOD (1 in 6) / capture stage, configured through convert_response, frame_type single/all/none, 0-3 watches (valid, failing, large), optional log message with fields, 0-4 '
         'decorator attributes and 0-3 resource attributes (str/bool/int/float/bytes/list/tuple values); value: '
         'values through BoundedAttributes + convert_value; auth: provider {none, "", basic, custom} x credentials '
         '{both, one, none} x 1-5 poll/push operations; wirebytes: the real bytes of a converted snapshot (0-4 variables, '
@@ -498,6 +503,39 @@ def make_deco(attrs):
     return CaseDecorator()
 
 
+def triggers_from_response(tp_id, path, line, args, watches):
+    """the tracepoint as the service configures it: a protobuf TracePointConfig of a poll response, through the real
+    deep.grpc.convert_response"""
+    from deep.grpc import convert_response
+    from deepproto.proto.tracepoint.v1.tracepoint_pb2 import TracePointConfig as PbTp
+    try:
+        pb = PbTp(ID=tp_id, path=path, line_number=line, args=args, watches=watches)
+    except (UnicodeError, ValueError):
+        # text no poll response can carry (the labelled lone-surrogate stream puts it into a watch / log message):
+        # configured directly, as the unit tests do
+        from deep.api.tracepoint.trigger import build_trigger
+        return build_trigger(tp_id, path, line, dict(args), list(watches), [])
+    trigs = convert_response([pb])
+    return trigs[0] if len(trigs) == 1 else None
+
+
+def push_and_parse(snapshot):
+    """the real PushService._push_task on a channel that serialises the request (as gRPC does) and parses the bytes
+    back (as the service does): (message that arrived or None, hex of the bytes sent)"""
+    from deep.config import ConfigService
+    from deep.config.tracepoint_config import TracepointConfigService
+    from deep.grpc import GRPCService
+    from deep.push.push_service import PushService
+    from deepproto.proto.tracepoint.v1.tracepoint_pb2 import Snapshot
+    rec = []
+    grpc = GRPCService(ConfigService({}, tracepoints=TracepointConfigService()))
+    grpc.channel = FakeChannel(rec)
+    PushService(grpc, None)._push_task(snapshot)
+    if not rec:
+        return None, None
+    return dump_msg(Snapshot.FromString(rec[-1]['data'])), rec[-1]['data'].hex()
+
+
 def collect_snapshot(case):
     """run the generated host under the real handler; returns the EventSnapshot (or None)"""
     from deep.api.tracepoint.trigger import build_trigger
@@ -507,7 +545,13 @@ def collect_snapshot(case):
         rig.config.resource = Resource({k: mat_attr(v) for k, v in case['resource']})
         fn, marker = host_functions(case['names'], case['nested'], bool(case.get('capture')))
         rig.clock = time.time_ns()      # the frame collector measures its time budget against the real clock
-        trig = build_trigger(case['tp_id'], 'gen_host.py', marker, dict(case['args']), list(case['watches']), [])
+        args = dict(case['args'])
+        if case.get('method'):
+            args['method_name'] = 'host'       # a METHOD tracepoint: bound to the function, it has no line number
+        trig = triggers_from_response(case['tp_id'], 'gen_host.py', 0 if case.get('method') else marker, args,
+                                      list(case['watches']))
+        if trig is None:
+            return None
         if case.get('capture'):
             # a capture-stage snapshot (only reachable through a directly constructed action, as in the unit tests):
             # it is completed on the `return` event and records the returned value with source CAPTURE
@@ -566,6 +610,10 @@ def run_snapshot(case):
         return {'collected': False}
     obs = convert_and_dump(s)
     obs['collected'] = True
+    try:
+        obs['arrived'], obs['arrived_hex'] = push_and_parse(s)
+    except BaseException as e:  # noqa: B902
+        obs['arrived'], obs['push_raised'] = None, f'{type(e).__name__}: {e}'
     return obs
 
 
@@ -804,6 +852,7 @@ def _run_auth(case, cfg, config, custom):
 
     def entry(r, op):
         return {'kind': 'polled' if op == 'poll' else 'pushed', 'metadata': r['metadata'],
+                'hex': r['data'].hex() if r.get('data') is not None else None,
                 'supplied': (Script.returns[-1] if Script.returns else None),
                 'has_metadata_kw': r['has_metadata_kw'], 'request': dump_msg(r['request']), 'op': op}
 
@@ -1078,8 +1127,31 @@ def run_wirebytes(case):
     return obs
 
 
+def run_tpline(case):
+    """the line number a tracepoint reports (TracePointConfig.line_no) for a tracepoint configured by the service"""
+    args = {'method_name': 'fn'} if case['how'] == 'method' else {}
+    trig = triggers_from_response('tp', 'a.py', case['line'], args, [])
+    if trig is None:
+        return {'built': False}
+    tp = trig.actions[0].tracepoint
+    obs = {'built': True, 'location_line': trig.line, 'line_no': tp.line_no}
+    try:
+        from deep.push import convert_snapshot
+        from deep.api.tracepoint import EventSnapshot
+        from deep.api.resource import Resource
+        snap = EventSnapshot(tp, 1_700_000_000_000_000_000, Resource({}), [], {})
+        snap.complete()
+        m = convert_snapshot(snap)
+        obs['sent_line_number'] = None if m is None else m.tracepoint.line_number
+    except BaseException as e:  # noqa: B902
+        obs['raised'] = f'{type(e).__name__}: {e}'
+    return obs
+
+
 def run_impl(case):
     k = case['kind']
+    if k == 'tpline':
+        return run_tpline(case)
     if k == 'wirebytes':
         return run_wirebytes(case)
     if k == 'uploads':
@@ -1113,6 +1185,8 @@ def attr_values(case):
     elif case['kind'] == 'uploads':
         for sp in case['snaps']:
             vals += [v for _, v in sp['attrs']] + [v for _, v in sp['resource']]
+    elif case['kind'] == 'tpline':
+        pass
     elif case['kind'] == 'wirebytes':
         vals += [v for _, v in case['snap']['attrs']] + [v for _, v in case['snap']['resource']]
     else:
@@ -1175,6 +1249,11 @@ def expected_metadata(cfg):
     return [list(kv) for kv in (cfg.get('custom_md') or [])]
 
 
+# provider names AuthProvider.get_provider cannot turn into a provider (no dot / no such attribute / no such module /
+# not callable / abstract class)
+UNLOADABLE = ['nodot', 'deep.api.auth.Missing', 'no.such.module.X', 'deep.api.auth.base64', 'deep.api.auth.AuthProvider']
+
+
 def expected_provider_failures(case):
     """which operations find the provider failing (the statement's side: the provider is asked once per operation until
     it has answered; its first `fail_first` answers are failures)"""
@@ -1211,6 +1290,19 @@ def oracle_uploads(case, obs):
 
 def oracle(case, obs):
     k = case['kind']
+    if k == 'tpline':
+        if not obs.get('built'):
+            return []
+        want = 0 if case['how'] == 'method' else case['line']      # a method tracepoint has no line: reported as 0
+        if 'raised' in obs:
+            return ['snapshot of a %s tracepoint (line %d): %s' % (case['how'], case['line'], obs['raised'])]
+        if obs.get('sent_line_number') is None:
+            return ['an (empty) snapshot of a %s tracepoint configured with line %d (location line %s, line_no %s) cannot be '
+                    'converted: it is DROPPED' % (case['how'], case['line'], obs['location_line'], obs['line_no'])]
+        if obs['sent_line_number'] != want:
+            return ['%s tracepoint configured with line %d is sent with line_number %s'
+                    % (case['how'], case['line'], obs['sent_line_number'])]
+        return []
     if k == 'wirebytes':
         # unknown fields, record order between different fields, an earlier occurrence of a singular scalar and varint
         # padding are not part of a message: the snapshot that was sent must still be what is read
@@ -1228,8 +1320,14 @@ def oracle(case, obs):
             return []
         if 'raised' in obs:
             return ['convert_snapshot raised: ' + obs['raised']]
+        what = 'snapshot of %s tracepoint %r' % ('METHOD' if case.get('method') else 'line', case['tp_id'])
         if obs['msg'] is None:
-            return ['the snapshot was DROPPED: convert_snapshot returned None (nothing is sent)']
+            return [what + ' was collected and then DROPPED: convert_snapshot returned None (nothing is sent)']
+        if 'arrived' in obs:
+            if obs['arrived'] is None:
+                return [what + ' was collected but NO message for it reached the service (PushService._push_task: %s)'
+                        % obs.get('push_raised', 'nothing sent')]
+            v += diff(canon_msg(obs['arrived']), expect_msg(obs['snapshot']), 'arrived')[:3]
         v += diff(canon_msg(obs['msg']), expect_msg(obs['snapshot']))
         if not obs.get('bytes_ok'):
             v.append('the message does not survive serialisation: ' + obs.get('bytes_error', 'parsed back differently'))
@@ -1260,6 +1358,13 @@ def oracle(case, obs):
                 v.append(f'{w["op"]} request sent with metadata {w["metadata"]} while another thread was inside the '
                          f'provider; the provider supplied {obs.get("provider_returns")}')
         return v
+    if case['cfg'].get('provider') in UNLOADABLE:
+        # the configured provider cannot supply anything: no request may go out in its name
+        for i, w in enumerate(obs['wire']):
+            if w['kind'] in ('polled', 'pushed') or w.get('sent'):
+                v.append(f'operation {i} ({w["op"]}): a request was sent (metadata {w.get("metadata")}) although the '
+                         f'configured auth provider {case["cfg"]["provider"]!r} cannot be loaded')
+        return v[:6]
     fails = expected_provider_failures(case)
     for i, w in enumerate(obs['wire']):
         if w['kind'] == 'raised' and fails[i] and w.get('provider_raised') and not w.get('sent'):
@@ -1298,6 +1403,8 @@ def oracle(case, obs):
 
 def model_request(case, obs):
     k = case['kind']
+    if k == 'tpline':
+        return {'op': 'lineno', 'location_line': obs['location_line']} if obs.get('built') else None
     if k == 'wirebytes':
         if not obs.get('converted'):
             return None
@@ -1335,7 +1442,11 @@ def model_request(case, obs):
         else:
             spec = case['snaps'][i % len(case['snaps'])]
             ops.append({'push': dump_snapshot(hand_snapshot(spec))})
-    return {'op': 'auth', 'cfg': mc, 'ops': ops, 'fail_first': int(cfg.get('fail_first') or 0)}
+    if cfg.get('provider') in UNLOADABLE:
+        mc['custom'] = []
+        return {'op': 'auth', 'cfg': mc, 'ops': ops, 'fail_first': len(ops) + 1, 'hex': [None] * len(ops)}
+    return {'op': 'auth', 'cfg': mc, 'ops': ops, 'fail_first': int(cfg.get('fail_first') or 0),
+            'hex': [w.get('hex') for w in obs['wire'][:len(ops)]]}
 
 
 def compare_wire(obs, resp, real_msg, canon_f):
@@ -1365,6 +1476,16 @@ def compare(case, obs, resp):
     if 'error' in resp:
         return ['model error: ' + resp['error']]
     k = case['kind']
+    if k == 'tpline':
+        d = []
+        if resp['line_no'] != obs['line_no']:
+            d.append('TracePointConfig.line_no for location line %s: model %s implementation %s'
+                     % (obs['location_line'], resp['line_no'], obs['line_no']))
+        if resp['accepted'] != (obs.get('sent_line_number') is not None):
+            d.append('line_number %s: model says protobuf %s it, implementation %s' % (
+                resp['line_no'], 'takes' if resp['accepted'] else 'refuses',
+                'sent it' if obs.get('sent_line_number') is not None else 'dropped the snapshot'))
+        return d
     if k == 'wirebytes':
         if (resp['decoded'] is None) != (obs['parsed'] is None):
             return ['wire (%s): the real runtime %s these bytes, the model decoder %s them'
@@ -1404,6 +1525,20 @@ def compare(case, obs, resp):
         return d
     if len(resp['wire']) != len(obs['wire']):
         return ['wire length differs']
+    for i, (b, wb_) in enumerate(zip(obs['wire'], resp.get('bytes') or [])):
+        if b.get('hex') is None or wb_ is None:
+            continue
+        if wb_.get('decoded') is None:
+            d.append(f'op {i}: the model cannot decode the bytes of the {b["op"]} request the real channel serialised')
+            continue
+        real = canon_msg(b['request']) if b['kind'] == 'pushed' else b['request']
+        dec = canon_msg(wb_['decoded']) if b['kind'] == 'pushed' else wb_['decoded']
+        d += diff(dec, real, f'op {i} {b["op"]} request bytes: model-decoded vs sent')[:2]
+        if wb_.get('reencoded') != b['hex']:
+            d.append(f'op {i}: the model re-encodes the {b["op"]} request to different bytes ('
+                     + first_byte_diff(wb_.get('reencoded') or '', b['hex']) + ')')
+    if d:
+        return d[:4]
     for i, (a, b) in enumerate(zip(resp['wire'], obs['wire'])):
         bk = 'dropped' if b['kind'] == 'raised' else b['kind']
         if a['kind'] != bk:
@@ -1532,6 +1667,8 @@ def gen_snapshot(rng, stream='main'):
         case['clock_back'] = rng.choice([1, 1000, 5_000_000_000, 3600 * 10 ** 9])
     if rng.random() < 0.2:
         case['capture'] = True             # completed on the return event: a CAPTURE watch result from the collector
+    elif rng.random() < 0.2:
+        case['method'] = True              # a METHOD tracepoint (FunctionLocation, no line number), hit on entry
     if stream == 'surrogate':
         where = rng.choice(['local', 'local', 'nested', 'attr', 'resource', 'log', 'watch', 'key'])
         bad = rng.choice(BAD)
@@ -1614,6 +1751,11 @@ def gen_auth(rng, stream='main'):
             case['concurrent'] = True
             case['ops'] = rng.choice([['poll', 'push'], ['push', 'poll'], ['push', 'push'], ['poll', 'poll']])
             return case
+    if stream == 'main' and not case.get('concurrent') and rng.random() < 0.08:
+        cfg['provider'] = rng.choice(UNLOADABLE)          # a provider class that cannot be loaded
+        for k in ('custom_md', 'fail_first', 'md_form'):
+            cfg.pop(k, None)
+        return case
     if rng.random() < 0.2:
         # through a real channel to a loopback gRPC server (gRPC metadata must be ASCII with lower-case keys)
         case['transport'] = 'grpc'
@@ -1703,6 +1845,10 @@ def gen(rng, tier):
             kind = rng.choice(['snapshot', 'snapshot', 'value', 'auth'])
             yield {'snapshot': gen_snapshot, 'value': gen_value, 'auth': gen_auth}[kind](rng, stream)
             continue
+        if r > 0.985:
+            yield {'kind': 'tpline', 'stream': 'main', 'how': rng.choice(['method', 'line']),
+                   'line': rng.choice([0, 1, 40, 2 ** 31, 2 ** 32 - 1, rng.randint(1, 5000)])}
+            continue
         c = gen_snapshot(rng) if r < 0.58 else gen_uploads(rng) if r < 0.61 else gen_wirebytes(rng) if r < 0.68 \
             else gen_value(rng) if r < 0.81 else gen_auth(rng)
         if clean(c):
@@ -1739,6 +1885,10 @@ def corpus():
         base,
         two,                                                                    # two uploads converting at once
         dict(base, capture=True, nested=False),
+        dict(base, method=True, watches=['len(__v)', 'nope']),                   # method tracepoint: location line -1
+        dict(base, method=True, nested=False, args={}, watches=[]),
+        {'kind': 'tpline', 'stream': 'main', 'how': 'method', 'line': 0},
+        {'kind': 'tpline', 'stream': 'main', 'how': 'line', 'line': 2 ** 32 - 1},
         dict(base, clock_back=5_000_000_000),                                   # wall clock stepped back 5 s (a7b49ff)                                 # CAPTURE source from the collector
         dict(base, attrs=[['status', {'sub': 'HTTPStatus.NOT_FOUND'}], ['color', {'sub': 'Color.RED'}],
                           ['ratio', {'sub': 'Ratio(0.25)'}]], resource=[['level', {'sub': 'Level.HIGH'}],
@@ -1751,6 +1901,9 @@ def corpus():
         {'kind': 'auth', 'stream': 'main', 'cfg': {'provider': 'props.c08.ScriptedProvider', 'fail_first': 1,
                                                    'custom_md': [['authorization', 'Bearer s3cr3t'], ['x-tenant', 'acme']]},
          'ops': ['poll', 'poll', 'push', 'poll'], 'resource': [['service.name', 'svc']],
+         'snaps': [{'tp_id': 'tp0', 'ts': 1_700_000_000_000_000_000, 'attrs': [], 'resource': []}]},
+        {'kind': 'auth', 'stream': 'main', 'cfg': {'provider': 'deep.api.auth.Missing'}, 'ops': ['poll', 'push', 'poll'],
+         'resource': [['service.name', 'svc']],
          'snaps': [{'tp_id': 'tp0', 'ts': 1_700_000_000_000_000_000, 'attrs': [], 'resource': []}]},
         {'kind': 'auth', 'stream': 'main', 'concurrent': True,
          'cfg': {'provider': 'props.c08.ScriptedProvider', 'custom_md': [['authorization', 'Bearer s3cr3t']]},
@@ -1806,6 +1959,8 @@ def label(case, obs):
     k = case['kind']
     s = case.get('stream', 'main')
     pre = f'{k}/' + ('' if s == 'main' else 'seq-none/' if s == 'seq-none' else f'KNOWN:{s}/')
+    if k == 'tpline':
+        return pre + case['how'] + ('/not-built' if not obs.get('built') else '')
     if k == 'wirebytes':
         return pre + case['mut']['kind'] + ('/not-converted' if not obs.get('converted') else
                                             '/read' if obs['parsed'] is not None else '/refused')
@@ -1817,14 +1972,14 @@ def label(case, obs):
         if obs.get('msg') is None:
             return pre + 'dropped'
         n = len(obs['snapshot']['var_lookup'])
-        return pre + ('small' if n < 5 else 'medium' if n < 40 else 'large')
+        return pre + ('method-tp/' if case.get('method') else '') + ('small' if n < 5 else 'medium' if n < 40 else 'large')
     if k == 'value':
         return pre + ('refused-by-attributes' if not obs.get('held') else 'raised' if 'raised' in obs
                       else obs['any']['f'])
     p = case['cfg'].get('provider')
     return pre + ('grpc-loopback/' if case.get('transport') == 'grpc' else '') + (
         'two-threads/' if case.get('concurrent') else '') + (
-        'no-provider' if not p else 'basic' if p.endswith('BasicAuthProvider') else
+        'no-provider' if not p else 'unloadable' if p in UNLOADABLE else 'basic' if p.endswith('BasicAuthProvider') else
         'scripted-fail%d' % int(case['cfg'].get('fail_first') or 0) if p.endswith('ScriptedProvider') else 'custom')
 
 
@@ -1832,6 +1987,8 @@ def nontrivial(case, obs):
     k = case['kind']
     if case.get('stream', 'main') not in ('main', 'seq-none'):
         return False
+    if k == 'tpline':
+        return bool(obs.get('built')) and case['how'] == 'method'
     if k == 'wirebytes':
         return bool(obs.get('converted')) and bool(obs.get('changed'))
     if k == 'uploads':
